@@ -650,7 +650,7 @@ class Engine:
         rep = self.rep
         for label, val, ln in self.invariant_terms(b, p):
             ok, why = self.prove_invariant(cx, val, ln)
-            shape = re.sub(r'#\d+\.\d+', '', '%s: val=%s len=%s' % (label, show(val), show(ln)))
+            shape = re.sub(r'#(?:i\d+:)?\d+\.\d+', '', '%s: val=%s len=%s' % (label, show(val), show(ln)))
             inst = '%s|O2 %s' % (b.defp, shape)
             if ok:
                 if inst not in done:
@@ -908,7 +908,7 @@ def check_display(facts, rep):
     rep.saw(g)
 
     def dk(t):
-        return re.sub(r'&mut _\d+', 'IT', re.sub(r'#\d+\.\d+', '', show(t, -1000))).replace('&', '').replace('*', '')
+        return re.sub(r'&mut _\d+', 'IT', re.sub(r'#(?:i\d+:)?\d+\.\d+', '', show(t, -1000))).replace('&', '').replace('*', '')
     whole = []
     per_elem = 0
     outside = []
